@@ -691,6 +691,20 @@ V({
     "trusted": ["chalk-ir Substitution (abstract)", "builtin_traits::{last_field_of_struct, needs_impl_for_tys}"],
 })
 
+# -------------------------------------------------------------------------- V34
+V({
+    "id": "V34",
+    "title": "antiunifier_consts: AntiUnifier::{aggregate_consts, new_ty_variable, new_lifetime_variable, new_const_variable} (chalk-engine/src/slg/aggregate.rs)",
+    "template": "v34_antiunifier_consts.rs",
+    "assumptions": [
+        "V34: InferenceTable::new_variable returns the table's next variable, unknown so far, and records it in the given universe (abstract table: map variable -> universe); EnaVariable::{to_ty, to_lifetime, to_const} are constructors; Const::data returns the interned data",
+        "V34: ConcreteConst::const_eq is the interner's (uninterpreted) equality of constant values; derived PartialEq / Clone of Const and Ty mean equality",
+        "V34: 'instance of' is not defined in the unit: the contract states the two facts it follows from - the result is the first constant only when both carry the same placeholder / equal concrete values, and otherwise a FRESH variable of the anti-unifier's universe typed like the first constant",
+        "V34: not in the unit: AntiUnifier::aggregate_tys and its helpers (closures capturing &mut self), aggregate_lifetimes (`match *void {}` on the empty enum Void, not representable in this Verus), aggregate_generic_args (casts); merge_into_guidance (iterator code)",
+    ],
+    "trusted": ["chalk-solve InferenceTable::new_variable (abstract)"],
+})
+
 # -------------------------------------------------------------------------- V33
 V({
     "id": "V33",
